@@ -54,9 +54,10 @@ func registerModelIntrinsics(m map[string]intrinsicFn) {
 	m[vhPath+"Quiesce"] = func(in *Interp, fn *ssa.Function, args []Value) Value {
 		// let every other goroutine run until it ends or blocks for good
 		s := in.scheduler()
+		self := s.cur
 		in.blockUntil(func() bool {
 			for _, t := range s.threads {
-				if t != s.cur && t.state != 3 && (t.state != 2 || t.cond()) {
+				if t != self && t.state != 3 && (t.state != 2 || t.cond()) {
 					return false
 				}
 			}
